@@ -62,6 +62,8 @@ Kinds == << ("a" :> Score("a", 5, FALSE)),
             ("a" :> Min(3, {"a", "e", "f"}, FALSE)) @@ ("b" :> Cds(Grp("and", <<Id("b", TRUE), Grp("or", <<D, Id("e", FALSE)>>, TRUE)>>, FALSE), FALSE)) >>
 KindShapes == {<<0, 0>>, <<2, 0>>, <<0, 2>>}
 SingleTrees == {A, Score("a", 5, FALSE), Min(2, {"a", "b", "c"}, FALSE), Min(1, {"a"}, FALSE),
+                (* more required than options listed: documented as "several genes have to provide one of the options" *)
+                Min(3, {"a", "b"}, FALSE),
                 Cds(Grp("and", <<A, B>>, FALSE), FALSE), Cds(Grp("or", <<A, Id("b", TRUE)>>, FALSE), FALSE),
                 Cds(Grp("and", <<Id("a", TRUE), Grp("or", <<B, C>>, FALSE)>>, FALSE), FALSE),
                 Cds(Grp("or", <<A, Grp("and", <<B, C>>, FALSE)>>, FALSE), FALSE),
